@@ -175,6 +175,9 @@ func runWriterChecks(prog *Program, prop string) []tableResult {
 			allowed[f] = true
 		}
 		name := "writers/" + wc.Field
+		if wc.Closers {
+			name = "closers/" + wc.Field
+		}
 		var bad []string
 		nStores := 0
 		for fn := range ssautil.AllFunctions(prog.ssa) {
@@ -202,6 +205,40 @@ func runWriterChecks(prog *Program, prop string) []tableResult {
 					}
 					st := pt.Underlying().(*types.Struct)
 					if nt.Obj().Name()+"."+st.Field(fa.Field).Name() != wc.Field {
+						continue
+					}
+					if wc.Closers {
+						in := top.Pkg.Pkg.Path() == wc.Pkg && allowed[rel]
+						for _, r := range *fa.Referrers() {
+							ld, ok := r.(*ssa.UnOp)
+							if !ok || ld.Op != token.MUL {
+								continue // stores of a new channel are the writers' business
+							}
+							for _, u := range *ld.Referrers() {
+								switch u := u.(type) {
+								case *ssa.DebugRef, *ssa.Select:
+								case *ssa.UnOp:
+									if u.Op != token.ARROW {
+										bad = append(bad, fmt.Sprintf("%s.%s uses the channel in an unexpected way (%s)", top.Pkg.Pkg.Path(), rel, u.Op))
+									}
+								case *ssa.BinOp:
+								case ssa.CallInstruction:
+									if b, ok := u.Common().Value.(*ssa.Builtin); ok && b.Name() == "close" {
+										nStores++
+										if !in {
+											bad = append(bad, top.Pkg.Pkg.Path()+"."+rel+" closes it")
+										}
+									} else if b != nil && (b.Name() == "len" || b.Name() == "cap") {
+									} else if !in {
+										bad = append(bad, top.Pkg.Pkg.Path()+"."+rel+" passes the channel on")
+									}
+								default:
+									if !in {
+										bad = append(bad, fmt.Sprintf("%s.%s lets the channel escape (%T)", top.Pkg.Pkg.Path(), rel, u))
+									}
+								}
+							}
+						}
 						continue
 					}
 					for _, r := range *fa.Referrers() {
@@ -244,6 +281,9 @@ func runWriterChecks(prog *Program, prop string) []tableResult {
 		sort.Strings(bad)
 		r := tableResult{Name: name, OK: len(bad) == 0}
 		r.Detail = fmt.Sprintf("%d stores to %s.%s in the module, all inside %s", nStores, wc.Pkg, wc.Field, strings.Join(wc.Funcs, ", "))
+		if wc.Closers {
+			r.Detail = fmt.Sprintf("%d close() of the channel in %s.%s in the module, all inside %s; the channel value travels nowhere else", nStores, wc.Pkg, wc.Field, strings.Join(wc.Funcs, ", "))
+		}
 		if !r.OK {
 			r.Detail = strings.Join(bad, "; ")
 		}
